@@ -275,6 +275,106 @@ func mirrorE2EMain(args mon.Args) {
 		if pi == 0 {
 			run.Sample(map[string]interface{}{"scenario": desc, "sent": len(all), "received_by_third_party": len(got)})
 		}
+		// every UDP source port an exporter can send from: the statement says "every datagram received", and the source
+		// port is the one dimension of a datagram the phases above leave to the kernel's ephemeral range. One protocol per
+		// process in the quick tier (ipfix in the wildcard-bound process, sflow in the 127.0.0.1-bound one), both in thorough.
+		if pi < 2 || run.Thorough() {
+			protos := []string{[]string{"ipfix", "sflow"}[pi%2]}
+			if run.Thorough() {
+				protos = []string{"ipfix", "sflow"}
+			}
+			for _, proto := range protos {
+				src := net.IPv4(127, byte(20+pi), 250, 1).To4()
+				dst := &net.UDPAddr{IP: net.IPv4(127, 0, 0, 1), Port: ports[proto]}
+				rmu.Lock()
+				base := len(rxs)
+				rmu.Unlock()
+				mark := uint16(0x5057 + pi*2 + map[string]int{"ipfix": 0, "sflow": 1}[proto])
+				sendFrom := func(port int) bool {
+					c, err := net.ListenUDP("udp4", &net.UDPAddr{IP: src, Port: port})
+					if err != nil {
+						return false
+					}
+					b := make([]byte, 8)
+					binary.BigEndian.PutUint32(b, 0xfff00000|uint32(port))
+					binary.BigEndian.PutUint16(b[4:], uint16(port))
+					binary.BigEndian.PutUint16(b[6:], mark)
+					c.WriteToUDP(b, dst)
+					c.Close()
+					return true
+				}
+				arrived := func() map[int]bool {
+					m := map[int]bool{}
+					rmu.Lock()
+					for _, r := range rxs[base:] {
+						if len(r.b) == 8 && binary.BigEndian.Uint16(r.b[6:]) == mark && binary.BigEndian.Uint32(r.b)&0xfff00000 == 0xfff00000 {
+							m[int(binary.BigEndian.Uint16(r.b[4:]))] = true
+						}
+					}
+					rmu.Unlock()
+					return m
+				}
+				count := func() int {
+					rmu.Lock()
+					defer rmu.Unlock()
+					return len(rxs) - base
+				}
+				sentPorts, unbound := 0, 0
+				for port := 1; port <= 65535; port++ {
+					if !sendFrom(port) {
+						unbound++
+						continue
+					}
+					sentPorts++
+					if sentPorts%250 == 0 {
+						for w := 0; w < 150 && count() < sentPorts-2; w++ { // at most a few stragglers in flight
+							time.Sleep(time.Millisecond)
+						}
+					}
+				}
+				var missing []int
+				for round := 0; round < 4; round++ {
+					time.Sleep(150 * time.Millisecond)
+					got := arrived()
+					missing = missing[:0]
+					for port := 1; port <= 65535; port++ {
+						if !got[port] {
+							missing = append(missing, port)
+						}
+					}
+					if len(missing) <= unbound || !col.alive() {
+						break
+					}
+					for _, port := range missing { // once more, slowly: a full queue is not what is being judged here
+						if sendFrom(port) {
+							time.Sleep(200 * time.Microsecond)
+						}
+					}
+				}
+				got := arrived()
+				var never []int
+				for _, port := range missing {
+					if !got[port] && sendFrom(port) { // bindable, sent five times, never mirrored
+						never = append(never, port)
+					}
+				}
+				time.Sleep(100 * time.Millisecond)
+				got = arrived()
+				var never2 []int
+				for _, port := range never {
+					if !got[port] {
+						never2 = append(never2, port)
+					}
+				}
+				run.Add("source_ports_swept_"+proto, int64(sentPorts))
+				run.Add("source_ports_seen_mirrored_"+proto, int64(len(got)))
+				if len(never2) > 0 && len(never2) < 2000 && col.alive() {
+					run.Violation("e2e-mirror:source-port-not-mirrored", fmt.Sprintf("%s: %s datagrams sent from source port(s) %v were never mirrored to the third-party collector although they were sent six times each; datagrams from %d other source ports were", desc, proto, never2[:min(len(never2), 12)], len(got)), wit("source ports never mirrored"))
+				} else if len(never2) >= 2000 {
+					run.Inconclusive(fmt.Sprintf("%s: %d of %d source-port probes never arrived; the sweep is not judged", desc, len(never2), sentPorts))
+				}
+			}
+		}
 		// the stop: exporters do not know about it and keep sending across the shutdown window. "Mirroring never
 		// crashes the collector" includes the second in which the collector winds down with the mirror path live.
 		stopSend := make(chan struct{})
@@ -312,7 +412,7 @@ func mirrorE2EMain(args mon.Args) {
 	if args.Replay == "" {
 		mirrorAcrossLives(run, bin, dir)
 	}
-	run.SetRule("end-to-end tier: the real binary with mirroring of IPFIX and sFlow towards a UDP listener, sockets bound to the wildcard (exporter addresses reach the mirror in 16-byte form) or to 127.0.0.1 (4-byte form), max-udp-size 512/1500, exporters 127.x.y.z, payload lengths 0..max with the bands next to 0, 28, 256 and the maximum always included; each datagram must arrive exactly once, byte-identical, from the exporter's address; the collector is stopped under traffic and must exit cleanly; a two-life scenario learns IPFIX templates with mirroring off, restarts on the same cache file with mirroring on (and the other way round) and requires data sent without templates to be published as its stand-alone decode. distinct = collector configuration")
+	run.SetRule("end-to-end tier: the real binary with mirroring of IPFIX and sFlow towards a UDP listener, sockets bound to the wildcard (exporter addresses reach the mirror in 16-byte form) or to 127.0.0.1 (4-byte form), max-udp-size 512/1500, exporters 127.x.y.z, payload lengths 0..max with the bands next to 0, 28, 256 and the maximum always included; each datagram must arrive exactly once, byte-identical, from the exporter's address; a sweep sends one datagram from every UDP source port 1..65535 (re-sent up to five times when it does not show) and every bindable port's datagram must be mirrored; the collector is stopped under traffic and must exit cleanly; a two-life scenario learns IPFIX templates with mirroring off, restarts on the same cache file with mirroring on (and the other way round) and requires data sent without templates to be published as its stand-alone decode. distinct = collector configuration")
 	run.Finish()
 }
 
